@@ -1,8 +1,233 @@
+import Martian.Sched
 import Driver.Util
 
-/-! Line-protocol handler for property C02 (stub: replaced when the model exists). -/
-namespace Driver.C02
+/-!
+Line-protocol handler for the `Sched` model (properties C02, C03, C05, C06).
 
-def handle (_op : String) (_args : List String) : Option String := none
+Ops (request = `C02.<op>\t<arg>…`):
+
+* `C02.metastate <s1,s2,…>`  — sentinel names as in Go without the `_` prefix
+  (`errors assert complete disabled log jobinfo queued_locally`; unknown names are
+  ignored; `-` = none).  Reply `<state> <true|false>` exactly like
+  `Metadata._getStateNoLock` (`none false` when no sentinel gives a state).
+* `C02.forkstate <fork>|<join>|<split>[|<chunk0>|<chunk1>…]` — each field a
+  comma separated sentinel list (`-` = empty) = the cache of the fork's own
+  metadata, of its join, of its split and of every chunk object.  Reply: the
+  `Fork.getState` name (`ready failed complete disabled split_<s> chunks_complete
+  chunks_running join_<s>`).
+* `C02.chunkstate <s1,s2,…>` — `Chunk.getState` name.
+* `C02.nodestate <forkstates> <prestates>` (two TAB separated args) — comma
+  separated fork state names in `Node.forks` order (`-` = no forks) and comma
+  separated `Node.getState` names of the prenodes (`none` = waiting, `-` = no
+  prenodes).  Reply: the `Node.getState` name (`none running complete failed
+  disabled`).
+* `C02.replay <line;line;…>` — a whole history as emitted by
+  harness/tiera_trace.go (`node …` lines, `start`, then events).  Reply
+  `ok <number of lines>[ note=failed-fork-masked@<line index>]` (the note: first
+  snapshot at which a node has a failed fork but `Node.getState` ≠ failed) or `reject <0-based line index> <reason…>`.
+  `snapshot` lines are compared with the model's own derived states
+  (`reject i snapshot-mismatch …`).  One normalisation is applied: the tracer
+  prints `mkchunks n f k` before the `W n f split complete` of the same
+  scheduler pass (diff order); the two are swapped back into causal order.
+* `C02.final <line;…>` — like replay, reply `ok <launches> <resets> <inc>` (summary of
+  the ghost history) or `reject …`.
+-/
+namespace Driver.C02
+open Martian.Sched Driver
+
+def parseSentinel : String → Option Sentinel
+  | "errors" => some .errors | "assert" => some .assert | "complete" => some .complete
+  | "disabled" => some .disabled | "log" => some .log | "jobinfo" => some .jobinfo
+  | "queued_locally" => some .queuedLocally
+  | _ => none
+
+def parseSSet (s : String) : SSet :=
+  if s == "-" || s == "" then {} else
+  (s.splitOn ",").foldl (fun acc n => match parseSentinel n with
+    | some x => acc.add x | none => acc) {}
+
+def parseMState : String → Option MState
+  | "failed" => some .failed | "complete" => some .complete | "disabled" => some .disabled
+  | "running" => some .running | "queued" => some .queued | _ => none
+
+def dropStr (n : Nat) (s : String) : String := String.ofList (s.toList.drop n)
+
+def parseFState (s : String) : Option FState :=
+  match s with
+  | "ready" => some .ready | "failed" => some .failed | "complete" => some .complete
+  | "disabled" => some .disabled | "chunks_complete" => some .chunksComplete
+  | "chunks_running" => some .chunksRunning
+  | _ =>
+    if s.startsWith "split_" then (parseMState (dropStr 6 s)).map .split
+    else if s.startsWith "join_" then (parseMState (dropStr 5 s)).map .join
+    else none
+
+def parseNState : String → Option NState
+  | "none" => some .waiting | "running" => some .running | "complete" => some .complete
+  | "failed" => some .failed | "disabled" => some .disabled | _ => none
+
+def parseRole (s : String) : Option Role :=
+  match s with
+  | "split" => some .split | "join" => some .join | "fork" => some .fork
+  | "main" => some (.chunk 0)
+  | _ => if s.startsWith "chunk:" then (dropStr 6 s).toNat?.map .chunk else none
+
+def parseObj (n f r : String) : Option Obj := do
+  pure ⟨← n.toNat?, ← f.toNat?, ← parseRole r⟩
+
+inductive Item where
+  | node (id : Nat) (info : NodeInfo)
+  | start
+  | ev (e : Ev)
+  | snapshot (n : Nat) (cached live : String) (forks : List (Nat × String × List (Nat × String)))
+  deriving Inhabited
+
+def stripBr (s : String) : String := String.ofList (s.toList.filter fun c => c != '[' && c != ']')
+
+def parseSnapFork (s : String) : Option (Nat × String × List (Nat × String)) :=
+  match s.splitOn "," with
+  | [] => none
+  | hd :: cs =>
+    match hd.splitOn ":" with
+    | [f, st] => do
+      let f ← f.toNat?
+      let cs ← cs.mapM fun c => match c.splitOn "=" with
+        | [i, cst] => do pure ((← i.toNat?), cst)
+        | _ => none
+      pure (f, st, cs)
+    | _ => none
+
+def parseLine (l : String) : Option Item :=
+  match (l.splitOn " ").filter (· != "") with
+  | "node" :: id :: kind :: rest => do
+    let id ← id.toNat?
+    let k ← match kind with
+      | "stage" => some Kind.stage | "splitstage" => some Kind.splitstage
+      | "pipeline" => some Kind.pipeline | _ => none
+    let pf := rest.contains "preflight"
+    let pre ← ((rest.filter (· != "preflight")).map stripBr |>.filter (· != "")).mapM String.toNat?
+    pure (.node id { kind := k, pre := pre, preflight := pf })
+  | ["start"] => some .start
+  | ["W", n, f, r, x] => do pure (.ev (.W (← parseObj n f r) (← parseSentinel x)))
+  | ["R", n, f, r, x] => do pure (.ev (.R (← parseObj n f r) (← parseSentinel x)))
+  | ["D", n, f, r, x] => do pure (.ev (.D (← parseObj n f r) (← parseSentinel x)))
+  | ["U", n, f, r, x] => do pure (.ev (.U (← parseObj n f r) (← parseSentinel x)))
+  | ["fork", n, f] => do pure (.ev (.fork (← n.toNat?) (← f.toNat?)))
+  | "forkorder" :: n :: l => do pure (.ev (.forkorder (← n.toNat?) (← l.mapM String.toNat?)))
+  | ["mkchunks", n, f, k] => do pure (.ev (.mkchunks (← n.toNat?) (← f.toNat?) (← k.toNat?)))
+  | ["launch", n, f, r] => do pure (.ev (.launch (← parseObj n f r)))
+  | ["joblog", n, f, r] => do pure (.ev (.joblog (← parseObj n f r)))
+  | ["jobend", n, f, r, x] => do pure (.ev (.jobend (← parseObj n f r) (← parseSentinel x)))
+  | ["silentfail", n, f, r] => do pure (.ev (.silentfail (← parseObj n f r)))
+  | ["killed", n, f, r] => do pure (.ev (.killed (← parseObj n f r)))
+  | ["refresh"] => some (.ev .refresh)
+  | ["stepend"] => some (.ev .stepend)
+  | ["nodestate", n, st] => do pure (.ev (.nodestate (← n.toNat?) (← parseNState st)))
+  | ["crash"] => some (.ev .crash)
+  | ["restart"] => some (.ev .restart)
+  | ["reset", n, f, r] => do pure (.ev (.reset (← parseObj n f r)))
+  | "snapshot" :: n :: cached :: live :: forks => do
+    pure (.snapshot (← n.toNat?) cached live (← forks.mapM parseSnapFork))
+  | _ => none
+
+/-- compare one snapshot with the model; `none` = equal -/
+def checkSnapshot (s : State) (n : Nat) (cached live : String)
+    (forks : List (Nat × String × List (Nat × String))) : Option String :=
+  if (s.cachedOf n).name != cached then
+    some s!"cached-node-state model={(s.cachedOf n).name} real={cached}"
+  else if (nodeState s n).name != live then
+    some s!"live-node-state model={(nodeState s n).name} real={live}"
+  else if forks.length != (s.forksOf n).length then
+    some s!"fork-count model={(s.forksOf n).length} real={forks.length}"
+  else
+    forks.findSome? fun (f, st, cs) =>
+      if !(s.forksOf n).contains f then some s!"unknown-fork {f}"
+      else if (forkState s n f).name != st then
+        some s!"fork-state fork={f} model={(forkState s n f).name} real={st}"
+      else if cs.length != s.nch n f then
+        some s!"chunk-count fork={f} model={s.nch n f} real={cs.length}"
+      else cs.findSome? fun (i, cst) =>
+        if chunkStateName (chunkState s n f i) != cst then
+          some s!"chunk-state fork={f} chunk={i} model={chunkStateName (chunkState s n f i)} real={cst}"
+        else none
+
+/-- undo the tracer's diff order: `mkchunks n f k ; W n f split complete` → swapped -/
+def normalise : List (Nat × Item) → List (Nat × Item)
+  | (i, .ev (.mkchunks n f k)) :: (j, .ev (.W o x)) :: r =>
+    if o == ⟨n, f, .split⟩ && x == .complete then
+      (j, .ev (.W o x)) :: (i, .ev (.mkchunks n f k)) :: normalise r
+    else (i, .ev (.mkchunks n f k)) :: normalise ((j, .ev (.W o x)) :: r)
+  | a :: r => a :: normalise r
+  | [] => []
+
+def header : List (Nat × Item) → List NodeInfo → Except String (List NodeInfo × List (Nat × Item))
+  | (i, .node id info) :: r, acc =>
+    if id == acc.length then header r (acc ++ [info]) else .error s!"reject {i} node-ids-not-consecutive"
+  | (_, .start) :: r, acc => .ok (acc, r)
+  | (i, _) :: _, _ => .error s!"reject {i} expected-node-or-start"
+  | [], _ => .error "reject 0 no-start-line"
+
+/-- a failed fork hidden from `Node.getState` by the `break` at an earlier unfinished fork -/
+def masked (s : State) (n : Nat) : Bool :=
+  (forkStates s n).any (· == .failed) && nodeState s n != .failed
+
+def run : State → Option Nat → List (Nat × Item) → Except String (State × Option Nat)
+  | s, note, [] => .ok (s, note)
+  | s, note, (i, .ev e) :: r =>
+    match step s e with
+    | some s' => run s' note r
+    | none => .error s!"reject {i} {(whyNot s e).getD "?"}"
+  | s, note, (i, .snapshot n c l fs) :: r =>
+    -- fallback while the tracer emits no `forkorder` line: at load time the
+    -- fork list of the node is whatever the snapshot lists
+    let s := if s.phase == .loading && fs.map (·.1) != s.forksOf n
+                && enabled s (.forkorder n (fs.map (·.1))) then apply s (.forkorder n (fs.map (·.1))) else s
+    match checkSnapshot s n c l fs with
+    | none => run s (if note.isNone && masked s n then some i else note) r
+    | some why => .error s!"reject {i} snapshot-mismatch node={n} {why}"
+  | _, _, (i, _) :: _ => .error s!"reject {i} unexpected-header-line"
+
+def replayLines (arg : String) : Except String (Nat × State × Option Nat) := do
+  let lines := (arg.splitOn ";").filter (· != "")
+  let rec parseAll (i : Nat) : List String → Except String (List (Nat × Item))
+    | [] => .ok []
+    | l :: r => match parseLine l with
+      | some it => do pure ((i, it) :: (← parseAll (i + 1) r))
+      | none => .error s!"reject {i} unparsable-line"
+  let items ← parseAll 0 lines
+  let (nodes, evs) ← header items []
+  let (s, note) ← run (init nodes) none (normalise evs)
+  pure (lines.length, s, note)
+
+def noteStr : Option Nat → String
+  | some i => s!" note=failed-fork-masked@{i}"
+  | none => ""
+
+def handle (op : String) (args : List String) : Option String :=
+  match op, args with
+  | "metastate", [s] =>
+    match metaState (parseSSet s) with
+    | some st => some s!"{st.name} true"
+    | none => some "none false"
+  | "chunkstate", [s] => some (chunkStateName (metaState (parseSSet s)))
+  | "forkstate", [d] =>
+    match d.splitOn "|" with
+    | fm :: jm :: sm :: cs =>
+      some (forkStateOf (metaState (parseSSet fm)) (metaState (parseSSet jm))
+        (cs.map fun c => metaState (parseSSet c)) (metaState (parseSSet sm))).name
+    | _ => none
+  | "nodestate", [fs, ps] => do
+    let fs ← if fs == "-" then some [] else (fs.splitOn ",").mapM parseFState
+    let ps ← if ps == "-" then some [] else (ps.splitOn ",").mapM parseNState
+    pure (nodeStateOf fs (ps.all fun p => p == .complete || p == .disabled)).name
+  | "replay", [h] =>
+    match replayLines h with
+    | .ok (n, _, note) => some s!"ok {n}{noteStr note}"
+    | .error e => some e
+  | "final", [h] =>
+    match replayLines h with
+    | .ok (_, s, _) => some s!"ok {s.launches.length} {s.resets.length} {s.inc}"
+    | .error e => some e
+  | _, _ => none
 
 end Driver.C02
